@@ -177,6 +177,12 @@ package car
 //@   call[multihash.SumStream#0] assert hashes_block_bytes [C02,C13]: cell(arg0) == cell(dr) && lim(arg0) == min(pos(dr) + (sectionLength - cidLen), lim(dr)) && arg1 == mhtype(c) && arg2 == ite(mhtype(c) == 0, -1, mhlen(c))
 //@   call[Cid.Equals#0] assert compares_with_section_cid [C02,C13]: arg1 == c
 //@   call[Cid.Prefix#0] assert roots_scan_complete [C13]: rootsPresentCount >= len(cur(stats).Roots) || rangeindex + 1 >= len(cur(stats).Roots)
+//@   let codec_before := call[maplookup#0]
+//@   let mh_before := call[maplookup#1]
+//@   call[mapupdate#0] assert counts_codec_of_this_section [C13]: ref(arg0) == ref(cur(stats).CodecCounts) && key == pcodec(c) && value == wrap_u64(codec_before + 1)
+//@   call[maplookup#0] assert reads_same_counter [C13]: ref(arg0) == ref(cur(stats).CodecCounts) && key == pcodec(c)
+//@   call[mapupdate#1] assert counts_hash_of_this_section [C13]: ref(arg0) == ref(cur(stats).MhTypeCounts) && key == mhtype(c) && value == wrap_u64(mh_before + 1)
+//@   call[maplookup#1] assert reads_same_counter [C13]: ref(arg0) == ref(cur(stats).MhTypeCounts) && key == mhtype(c)
 //@   loop[0] step accepted_section [C02,C13]: slerr == nil && cerr == nil && sectionLength <= r.opts.MaxAllowedSectionSize && cidLen <= sectionLength && !(sectionLength == 0 && r.opts.ZeroLengthSectionAsEOF)
 //@   loop[0] step hash_verified [C02,C13]: validateBlockHash ==> merr == nil && eq
 //@   loop[0] step block_count [C13]: cur(stats).BlockCount == wrap_u64(athead(0, cur(stats).BlockCount) + 1)
